@@ -292,6 +292,15 @@ func checkC02(e *RunEnv) *CheckResult {
 			steps = append(steps, Write("f", "f\n"), Run("add", "f"), Run("commit", "-m", "identity"))
 			idc = append(idc, Case{Base: initOnly, BaseName: "init", BaseSeed: []Step{Run("init")}, Steps: steps})
 		}
+		if initOnly != nil {
+			// the identity set in steps with another section in between, the global file defining a name as well
+			for _, seq := range [][]Step{
+				{Run("config", "--global", "user.name", "Global Name"), Run("config", "user.name", "Local Name"), Run("config", "core.editor", "vi"), Run("config", "user.email", "local@x.io")},
+				{Run("config", "user.email", "local@x.io"), Run("config", "core.editor", "vi"), Run("config", "--global", "core.pager", "less"), Run("config", "--global", "user.name", "Global Name"), Run("config", "user.name", "Sammy Davis Jr.")},
+			} {
+				idc = append(idc, Case{Base: initOnly, BaseName: "init", BaseSeed: []Step{Run("init")}, Steps: append(append([]Step{}, seq...), Write("f", "f\n"), Run("add", "f"), Run("commit", "-m", "identity"))})
+			}
+		}
 		sweep = x.RunCases(cases) + x.RunCases(idc)
 	}, func(x *Explorer, cov map[string]interface{}) {
 		cov["name_set_sweep_cases"] = sweep
@@ -341,8 +350,9 @@ func hugeDirSteps(n int) []Step {
 	}
 	steps = append(steps, Write(deep+"/leaf", "forty levels down\n"), Write(deep+"/leaf2", "second leaf\n"), Run("add", "deep"))
 	steps = append(steps, Write(n255, "name of 255 bytes\n"), Write(n250, "name of 250 bytes\n"),
+		Write("...", "a name of three dots\n"), Write("v1/....", "four dots\n"), Write("v1/.cfg/x", "inside a dot-named directory\n"),
 		Write("v1/data/x", "same\n"), Write("v1/data/y", "same too\n"), Write("v2/data/x", "same\n"), Write("v2/data/y", "same too\n"),
-		Run("add", "huge", n255, "v1", "v2"), Run("commit", "-m", "huge directory"),
+		Run("add", "huge", n255, "v1", "v2", "..."), Run("commit", "-m", "huge directory"),
 		Run("rm", "huge/file-0007.txt"), Write("huge/file-0500.txt", "edited\n"), Write("v2/data/x", "no longer the same\n"), Run("add", "huge/file-0500.txt", "v2"), Run("commit", "-m", "huge directory, second snapshot"))
 	return steps
 }
